@@ -16,7 +16,12 @@ pub struct Rng {
 /// by Knuth and H. W. Lewis.
 impl Rng {
     pub fn new(seed: u64) -> Self {
-        Rng { seed }
+        // Any 64-bit seed is accepted, but the generator's state space is
+        // 0..MODULUS: a larger state would make `latest_random` return values
+        // outside [0, 1) and overflow the multiplication in `random`.
+        Rng {
+            seed: seed % MODULUS,
+        }
     }
 
     pub fn random(&mut self) -> f64 {
